@@ -1215,7 +1215,7 @@ class MountPointStore(RoutingStore):
             metadata["key"] = key
 
             return metadata
-        except KeyRouteNotFoundStoreException:
+        except (KeyRouteNotFoundStoreException, KeyNotFoundStoreException):
             if self.is_dir(key):
                 return self.finalize_metadata({}, key, is_dir=True)
         raise KeyNotFoundStoreException(key=key, store=self)
